@@ -945,6 +945,56 @@ fn describe(served: &Option<Served>, late: &[Chain]) -> (String, String, String)
     }
 }
 
+/// more than 65536 requests on one device: the free-running 16-bit ring indices wrap; every request
+/// must still be matched with its completion (oracles only: the model would repeat itself 66000 times)
+fn wrap_case(ctx: &Ctx, idx: usize, id: String) -> Case {
+    let mut c = Case::new(id);
+    let mut rng = ctx.case_rng("blk-wrap", idx);
+    let offered = (1u64 << 32) | if idx % 2 == 1 { 1 << 28 } else { 0 } | if idx % 4 >= 2 { 1 << 29 } else { 0 };
+    let Some((mut blk, _)) = setup(&mut c, &Setup { offered, cap_lo: 8, cap_hi: 0, nsect: 8 }) else { return c };
+    c.tag("wrap");
+    let plan = Plan { status: 0, ulen: None };
+    let total = 66_000usize;
+    for i in 0..total {
+        let mut req = BlkReq::default();
+        let mut resp = Box::new(BlkResp::default());
+        let mut nbuf = vec![FILL; 512];
+        let sector = rng.below(8) as usize;
+        let tok = unsafe { blk.read_blocks_nb(sector, &mut req, &mut nbuf, &mut resp) };
+        let new = with_dev(|d| d.poll());
+        let (tok, ch) = match (tok, new.first()) {
+            (Ok(t), Some(ch)) if ch.head == t => (t, ch.clone()),
+            (t, _) => {
+                c.fail(format!("request {}: read_blocks_nb returned {:?} and the device fetched {} chains", i, t.map_err(|e| format!("{:?}", e)), new.len()));
+                break;
+            }
+        };
+        if let Err(e) = with_dev(|d| d.serve(&ch, plan)) {
+            c.fail(format!("request {}: reference device: {}", i, e));
+            break;
+        }
+        if blk.peek_used() != Some(tok) {
+            c.fail(format!("request {}: the device completed token {} but peek_used() = {:?} (ring indices are free-running 16-bit counters)", i, tok, blk.peek_used()));
+            break;
+        }
+        let r = unsafe { blk.complete_read_blocks(tok, &req, &mut nbuf, &mut resp) };
+        if r.is_err() {
+            c.fail(format!("request {}: complete_read_blocks returned {:?} for a request the device completed with status OK", i, r));
+            break;
+        }
+        if i % 4096 == 0 {
+            crate::vsock_world::free_dead_bounces();
+        }
+    }
+    c.nontrivial = c.oracle_failures.is_empty();
+    drop(blk);
+    DEV.with(|d| *d.borrow_mut() = None);
+    for v in hal::with(|h| std::mem::take(&mut h.violations)) {
+        c.fail(format!("ledger: {}", v));
+    }
+    c
+}
+
 /// every status byte × every operation, blocking and non-blocking (exhaustive over the byte)
 fn status_case(ctx: &Ctx, status: usize, id: String) -> Case {
     let mut c = Case::new(id);
@@ -1116,6 +1166,7 @@ pub fn run(ctx: &Ctx) -> (Vec<Case>, String, bool, BTreeMap<String, String>) {
     let mut all = crate::runner::par_cases(ctx, "C14", "blk", n_main, |i, id| structured(ctx, i, id, false));
     all.extend(crate::runner::par_cases(ctx, "C14", "blk-malformed", n_mal, |i, id| structured(ctx, i, id, true)));
     all.extend(crate::runner::par_cases(ctx, "C14", "blk-status", 256, |i, id| status_case(ctx, i, id)));
+    all.extend(crate::runner::par_cases(ctx, "C14", "blk-wrap", ctx.tier.pick(2, 8), |i, id| wrap_case(ctx, i, id)));
     let mut st = Case::new(ctx.case_id("C14", "oracle-selftest", 0));
     if ctx.wants(&st.id) {
         for b in oracle_selftest() {
@@ -1127,6 +1178,6 @@ pub fn run(ctx: &Ctx) -> (Vec<Case>, String, bool, BTreeMap<String, String>) {
     // capacity under a configuration that changes while `new` reads it (C13's untorn stream, block
     // driver only, on the model, MMIO and PCI transports): the capacity must be one the device exposed
     all.extend(crate::runner::par_cases(ctx, "C14", "blk-capacity-untorn", 9, |i, id| crate::c13_config::consistent_case(ctx, (i % 3) * 5 + (i / 3) * 15, id)));
-    let rule = "real VirtIOBlk on ModelTransport+LedgerHal (bouncing) against a spec-written reference block device with an in-memory disk. Stream `blk`: random feature sets (RO, FLUSH, INDIRECT, EVENT_IDX, VERSION_1, ACCESS_PLATFORM + unknown bits), capacity words, then 10..40 (quick) / 10..90 (thorough) operations: non-blocking reads/writes up to and beyond a queue-full (5 direct / 16 indirect), device completions of a randomly chosen pending request with a random status byte (0,1,2,3 biased, all 256 possible) and used length, peek_used, complete_* of the head or of a wrong token, blocking read/write/flush/device_id when idle; sectors in range, at the end of the disk, beyond it and anywhere in 64 bits; lengths 1..8 (24) sectors. Stream `blk-malformed`: the same plus invalid lengths (0, non-multiples of 512: panic expected) and blocking calls while an older completion is unconsumed (WrongToken). Stream `blk-status`: all 256 status bytes x {write, read, flush, id, non-blocking read} (complete enumeration of the status byte). Stream `blk-capacity-untorn`: VirtIOBlk::new while the device replaces its configuration (bumping the generation) at every point / pair of points of the capacity read, on the model, MMIO and PCI transports: capacity() must be a value the device exposed under one generation. Non-trivial = at least one request completed with status OK and its data verified against the generator's shadow disk (capacity stream: a capacity was returned).".to_string();
+    let rule = "real VirtIOBlk on ModelTransport+LedgerHal (bouncing) against a spec-written reference block device with an in-memory disk. Stream `blk`: random feature sets (RO, FLUSH, INDIRECT, EVENT_IDX, VERSION_1, ACCESS_PLATFORM + unknown bits), capacity words, then 10..40 (quick) / 10..90 (thorough) operations: non-blocking reads/writes up to and beyond a queue-full (5 direct / 16 indirect), device completions of a randomly chosen pending request with a random status byte (0,1,2,3 biased, all 256 possible) and used length, peek_used, complete_* of the head or of a wrong token, blocking read/write/flush/device_id when idle; sectors in range, at the end of the disk, beyond it and anywhere in 64 bits; lengths 1..8 (24) sectors. Stream `blk-malformed`: the same plus invalid lengths (0, non-multiples of 512: panic expected) and blocking calls while an older completion is unconsumed (WrongToken). Stream `blk-status`: all 256 status bytes x {write, read, flush, id, non-blocking read} (complete enumeration of the status byte). Stream `blk-wrap`: 66000 non-blocking reads on one device (the 16-bit ring indices wrap), each must be matched with its completion. Stream `blk-capacity-untorn`: VirtIOBlk::new while the device replaces its configuration (bumping the generation) at every point / pair of points of the capacity read, on the model, MMIO and PCI transports: capacity() must be a value the device exposed under one generation. Non-trivial = at least one request completed with status OK and its data verified against the generator's shadow disk (capacity stream: a capacity was returned).".to_string();
     (all, rule, false, BTreeMap::new())
 }
